@@ -1118,7 +1118,10 @@ impl<K: EnrKey> Encodable for Enr<K> {
 
 impl<K: EnrKey> Decodable for Enr<K> {
     fn decode(buf: &mut &[u8]) -> Result<Self, DecoderError> {
-        if buf.len() > MAX_ENR_SIZE {
+        // The size limit applies to the record itself, not to whatever follows it in the buffer
+        // (e.g. when reading records from a stream or from an RLP list).
+        let header = Header::decode(&mut &**buf)?;
+        if header.length() + header.payload_length > MAX_ENR_SIZE {
             return Err(DecoderError::Custom("enr exceeds max size"));
         }
 
